@@ -266,6 +266,8 @@ def _params(rng, family, spec):
         p['num_points'] = int(rng.integers(3, 70))
     if family == 'fan' and rng.random() < 0.06:
         p['wavelengths'], p['wl_mode'] = [lw[0], lw[-1], lw[0]], 'duplicate-value'
+    if family == 'pupil' and rng.random() < 0.35:
+        p['clip'] = [int(rng.integers(len(spec['surfaces']) - 1)), round(float(rng.uniform(0.55, 0.95)), 3)]
     if family == 'ee':
         p['fields'] = _pick_fields(rng, spec)
         r = rng.random()
@@ -631,8 +633,7 @@ def _capture_lines(obj):
     return out
 
 
-def fam_ee(ctx, rec, c):
-    from optiland.analysis import EncircledEnergy
+def apply_clip(ctx, rec, c, cls_name):
     if c.get('clip') and not ctx.sample:
         # a clipping aperture on one surface (fraction of the paraxial marginal height there): some rays lose
         # their energy, so that "total transmitted energy" differs from the number of rays
@@ -645,7 +646,12 @@ def fam_ee(ctx, rec, c):
             spec['surfaces'][k]['aperture'] = {'r_max': frac * h}
             ctx.spec = spec
             ctx.A, ctx.B = L.build(spec), L.build(spec)
-            rec.cls('ee-clipping-aperture')
+            rec.cls(cls_name)
+
+
+def fam_ee(ctx, rec, c):
+    from optiland.analysis import EncircledEnergy
+    apply_clip(ctx, rec, c, 'ee-clipping-aperture')
     Farg, F = ctx.fields_arg(c.get('fields', 'all'))
     n, dist, seed, npts = c['n'], c['dist'], c.get('dseed', 0), c['num_points']
     wl = c.get('wavelength', 'primary')
@@ -825,6 +831,8 @@ def fam_fieldcurv(ctx, rec, c):
 
 def fam_pupil(ctx, rec, c):
     from optiland.analysis import PupilAberration
+    # (a ray cut off BEHIND the stop still has its stop coordinate: the pupil aberration is defined there)
+    apply_clip(ctx, rec, c, 'pupil-clipping-aperture')
     Farg, F = ctx.fields_arg(c.get('fields', 'all'))
     Warg, W = ctx.wl_arg(c.get('wavelengths', 'all'))
     npts = c['num_points']
